@@ -48,6 +48,11 @@ type Case struct {
 	Order int   // 0 XDR, 1 NDR
 	Mixed []int // per-element byte order for the decode-side case (nil: not a mixed case)
 	Large int   // > 0: a geometry of the skeleton's kind with this many vertices in its (last) member
+	// Many > 0: a geometry with many members: Shape "wide" = this many small
+	// members of the skeleton's kind, "deep" = a chain of collections nested
+	// this deep, "tree" = a complete binary tree of collections of this depth
+	Many  int    `json:",omitempty"`
+	Shape string `json:",omitempty"`
 }
 
 var otherGeom = geom.MultiLineString{{{X: 1, Y: 2}, {X: 3, Y: 4}, {X: 5, Y: 6}, {X: 7, Y: 8}}, {{X: 9, Y: 10}}}
@@ -63,6 +68,56 @@ func build(c Case) geom.Geom {
 		}
 		i++
 		return math.Float64frombits(p)
+	}
+	if c.Many > 0 {
+		pt := func() geom.Point { x := val(); y := val(); return geom.Point{X: x, Y: y} }
+		switch c.Shape {
+		case "deep":
+			var g geom.Geom = pt()
+			for k := 0; k < c.Many; k++ {
+				g = geom.GeometryCollection{g}
+			}
+			return g
+		case "tree":
+			var mk func(d int) geom.Geom
+			mk = func(d int) geom.Geom {
+				if d == 0 {
+					return pt()
+				}
+				return geom.GeometryCollection{mk(d - 1), mk(d - 1)}
+			}
+			return mk(c.Many)
+		}
+		switch c.Skel.Kind {
+		case geomgen.KMultiLineString:
+			o := make(geom.MultiLineString, c.Many)
+			for k := range o {
+				o[k] = geom.LineString{pt(), pt()}
+			}
+			return o
+		case geomgen.KPolygon:
+			o := make(geom.Polygon, c.Many)
+			for k := range o {
+				o[k] = geom.Path{pt(), pt(), pt()}
+			}
+			return o
+		case geomgen.KMultiPolygon:
+			o := make(geom.MultiPolygon, c.Many)
+			for k := range o {
+				o[k] = geom.Polygon{{pt(), pt(), pt()}}
+			}
+			return o
+		default:
+			o := make(geom.GeometryCollection, c.Many)
+			for k := range o {
+				if k%3 == 2 {
+					o[k] = geom.GeometryCollection{}
+				} else {
+					o[k] = geom.GeometryCollection{pt()}
+				}
+			}
+			return o
+		}
 	}
 	if c.Large > 0 {
 		pts := make([]geom.Point, c.Large)
@@ -221,7 +276,7 @@ func main() {
 		return
 	}
 	r := report.New("C05", tier, "model_checking")
-	r.Rule = "E1: every structure tree of the 7 encodable types (members 0..2(3), ring/line lengths 0..2(3), collections nested to depth 3) x 12 rotations of a list of twelve 64-bit patterns (full 144 product for points) x {XDR,NDR}: Encode bytes == independent OGC serializer, Decode(Encode) bit-identical, stream Read/Write, hex lower/upper, returned bytes unchanged by later Encode calls; members of 31..5000 vertices (around and beyond the reader's chunk sizes); decode side: every assignment of a byte order to every nested element (all 2^n for n<=8 elements, uniform + single/double flips above). Non-trivial = cases with >=2 nested elements or a non-finite / signed-zero / subnormal coordinate."
+	r.Rule = "E1: every structure tree of the 7 encodable types (members 0..2(3), ring/line lengths 0..2(3), collections nested to depth 3) x 12 rotations of a list of twelve 64-bit patterns (full 144 product for points) x {XDR,NDR}: Encode bytes == independent OGC serializer, Decode(Encode) bit-identical, stream Read/Write, hex lower/upper, returned bytes unchanged by later Encode calls; members of 31..5000 vertices (around and beyond the reader's chunk sizes); decode side: every assignment of a byte order to every nested element (all 2^n for n<=8 elements, uniform + single/double flips above). Non-trivial = cases with >=2 nested elements or a non-finite / signed-zero / subnormal coordinate. Many members: 31..1000 members of each multi type / rings / one-point collections, collection chains nested 8..200 deep, complete binary trees of collections of depth 3..7."
 	cfg := geomgen.Config{MaxMembers: 2, Lens: []int{0, 1, 2}, FlatMax: 2, PolyRings: 2, Depth: 3, GCMembers: 2}
 	if tier == "thorough" {
 		cfg = geomgen.Config{MaxMembers: 3, Lens: []int{0, 1, 2, 3}, FlatMax: 3, PolyRings: 2, Depth: 3, GCMembers: 3}
@@ -322,6 +377,32 @@ func main() {
 					}
 					r.Violation(fmt.Sprintf("%s|%s|order=%d|large", sym, kind, order), map[string]interface{}{"case": c, "observed": det})
 				}
+			}
+		}
+	}
+	// many members: wide, deep and tree-shaped geometries
+	var many []Case
+	for _, kind := range []geomgen.Kind{geomgen.KMultiLineString, geomgen.KPolygon, geomgen.KMultiPolygon, geomgen.KCollection} {
+		for _, sz := range []int{31, 32, 33, 40, 64, 65, 100, 257, 1000} {
+			many = append(many, Case{Skel: geomgen.Skel{Kind: kind}, Many: sz, Shape: "wide"})
+		}
+	}
+	for _, sz := range []int{8, 31, 32, 33, 40, 64, 200} {
+		many = append(many, Case{Skel: geomgen.Skel{Kind: geomgen.KCollection}, Many: sz, Shape: "deep"})
+	}
+	for _, d := range []int{3, 4, 5, 6, 7} {
+		many = append(many, Case{Skel: geomgen.Skel{Kind: geomgen.KCollection}, Many: d, Shape: "tree"})
+	}
+	for _, c := range many {
+		for order := 0; order < 2; order++ {
+			c.Order, c.Rot = order, c.Many%12
+			n++
+			nontrivial++
+			if sym, det := check(c); sym != "" {
+				if len(det) > 300 {
+					det = det[:300]
+				}
+				r.Violation(fmt.Sprintf("%s|%s|order=%d|many-%s", sym, c.Skel.Kind, order, c.Shape), map[string]interface{}{"case": c, "observed": det})
 			}
 		}
 	}
